@@ -551,7 +551,9 @@ def _compose_qoperations_MProcess_MProcess(
     for hs2 in elem2.hss:
         for hs1 in elem1.hss:
             hss.append(hs1 @ hs2)
-    shape = elem1.shape + elem2.shape
+    # the list is ordered with the earlier process (elem2) as the slow index,
+    # like every other composition that produces a multi-index
+    shape = elem2.shape + elem1.shape
 
     mprocess = MProcess(
         elem1.composite_system,
